@@ -475,7 +475,7 @@ theorem addBlocks_printed (u : Units) (hv : u.sys.valid = true) :
 
 /-- what `parse_units` does once the character loop has produced `blocks` -/
 def finishBlocks (blocks : List Block) : Res Units :=
-  if blocks.any (fun b => !b.exp.isEmpty && (pyInt b.exp).isNone) then .error .badSyntax
+  if blocks.any (fun b => !b.exp.isEmpty && badExpText b.exp) then .error .badSyntax
   else
     match ({} : Acc).addBlocks blocks with
     | .error e => .error e
@@ -551,11 +551,40 @@ theorem pblock_clean (sym : String) (e : Int)
       exact (this c hc).2
     · exact hx.2 c hc
 
-theorem pyInt_expText_ok (e : Int) : (!(expText e).isEmpty && (pyInt (expText e)).isNone) = false := by
+theorem asciiDigits_showNat (n : Nat) : asciiDigits (showNatChars n) = true := by
+  have hne := showNatF_ne_nil n n
+  have hd : ∀ c ∈ digits10, c.isDigit = true := by decide
+  simp only [asciiDigits, showNatChars, Bool.and_eq_true, Bool.not_eq_true', List.isEmpty_eq_false_iff, List.all_eq_true]
+  exact ⟨hne, fun c hc => hd c (showNatF_mem n n c hc)⟩
+
+theorem strictExp_showInt (n : Int) : strictExp (showIntChars n) = true := by
+  by_cases hneg : n < 0
+  · have hs : showIntChars n = '-' :: showNatChars n.natAbs := by simp [showIntChars, hneg]
+    rw [hs]; exact asciiDigits_showNat _
+  · have hs : showIntChars n = showNatChars n.toNat := by simp [showIntChars, hneg]
+    rw [hs]
+    have hne := showNatF_ne_nil n.toNat n.toNat
+    cases hsn : showNatChars n.toNat with
+    | nil => exact absurd hsn hne
+    | cons a as =>
+      have ha : a ≠ '-' := by
+        have := (digits10_props a (showNatF_mem _ _ a (by rw [showNatChars] at hsn; rw [hsn]; simp))).2.2.2.2.1
+        exact this
+      have h2 := asciiDigits_showNat n.toNat
+      rw [hsn] at h2
+      unfold strictExp
+      split
+      · rename_i r heq; cases heq; exact absurd rfl ha
+      · exact h2
+
+theorem badExpText_showInt (n : Int) : badExpText (showIntChars n) = false := by
+  simp [badExpText, strictExp_showInt, pyInt_showInt]
+
+theorem pyInt_expText_ok (e : Int) : (!(expText e).isEmpty && badExpText (expText e)) = false := by
   unfold expText
   split
   · simp
-  · simp [pyInt_showInt]
+  · simp [badExpText_showInt]
 
 theorem syms_nonempty : ∀ s ∈ spaceSyms ++ timeSyms ++ qtySyms ++ densitySyms ++ volumeSyms, s.toList ≠ [] := by
   decide +kernel
@@ -949,18 +978,61 @@ theorem pyInt_none_of_bad_tail (h : Char) (t : List Char) (hnb : ∀ c ∈ h :: 
     exact pyIntBody_none x hx1 hx2 _ _ hx
   · exact pyIntBody_none x hx1 hx2 _ _ (by simp [hx])
 
-theorem finishBlocks_error_of_badExp (bs : List Block) (b : Block) (hb : b ∈ bs) (hne : b.exp ≠ [])
-    (hp : pyInt b.exp = none) : finishBlocks bs = .error .badSyntax := by
+theorem finishBlocks_error_of_badExpText (bs : List Block) (b : Block) (hb : b ∈ bs) (hne : b.exp ≠ [])
+    (hp : badExpText b.exp = true) : finishBlocks bs = .error .badSyntax := by
   unfold finishBlocks
-  have : bs.any (fun b => !b.exp.isEmpty && (pyInt b.exp).isNone) = true := by
+  have : bs.any (fun b => !b.exp.isEmpty && badExpText b.exp) = true := by
     rw [List.any_eq_true]
     exact ⟨b, hb, by simp [hne, hp]⟩
   rw [if_pos this]
+
+theorem finishBlocks_error_of_badExp (bs : List Block) (b : Block) (hb : b ∈ bs) (hne : b.exp ≠ [])
+    (hp : pyInt b.exp = none) : finishBlocks bs = .error .badSyntax :=
+  finishBlocks_error_of_badExpText bs b hb hne (by simp [badExpText, hp])
 
 theorem unitType_none_of_not_mem (s : String) (h : s ∉ allSyms) : unitType s = none := by
   have ho : unitTypeOrder = ["space", "time", "quantity", "density", "volume"] := by decide
   simp only [allSyms, List.mem_append, not_or] at h
   simp [unitType, ho, List.lookup, List.filterMap, h.1.1.1.1, h.1.1.1.2, h.1.1.2, h.1.2, h.2]
+
+/-! ### strict exponent text -/
+
+theorem asciiDigits_false_of_mem (t : List Char) (y : Char) (hy : y ∈ t) (hd : y.isDigit = false) :
+    asciiDigits t = false := by
+  simp only [asciiDigits, Bool.and_eq_false_iff, List.all_eq_false]
+  exact Or.inr ⟨y, hy, by simp [hd]⟩
+
+theorem strictExp_false_of_tail (h : Char) (t : List Char) (y : Char) (hy : y ∈ t) (hd : y.isDigit = false) :
+    strictExp (h :: t) = false := by
+  unfold strictExp
+  split
+  · rename_i r heq; cases heq; exact asciiDigits_false_of_mem _ y hy hd
+  · exact asciiDigits_false_of_mem _ y (by simp [hy]) hd
+
+theorem strictExp_false_of_trailing_sign (e : List Char) : strictExp (e ++ ['-']) = false := by
+  cases e with
+  | nil => decide
+  | cons h t => exact strictExp_false_of_tail h (t ++ ['-']) '-' (by simp) (by decide)
+
+theorem badExpText_of_not_strict (t : List Char) (h : strictExp t = false) : badExpText t = true := by
+  have hg : puStrictExponent = true := rfl
+  simp [badExpText, hg, h]
+
+/-- a `-` at the very end of a factor ends that factor's exponent text -/
+theorem scan_trailing_sign (a rest : List Char) (hrest : rest = [] ∨ ∃ c r, rest = c :: r ∧ sepChars.contains c = true)
+    (done : List Block) (cur : Block) (e : Bool) :
+    ∃ b ∈ scanBlocks (a ++ '-' :: rest) done cur e, ∃ e', b.exp = e' ++ ['-'] := by
+  obtain ⟨d', c', e1, h, _⟩ := scan_prefix a ('-' :: rest) done cur e
+  rw [h]
+  have hs : sepChars.contains '-' = false := by decide
+  have hx : expChars.contains '-' = true := by decide
+  simp only [scanBlocks, hs, Bool.false_eq_true, if_false, hx, Bool.or_true, if_true]
+  rcases hrest with hr | ⟨c, r, hr, hc⟩
+  · subst hr
+    exact ⟨{ c' with exp := c'.exp ++ ['-'] }, by simp [scanBlocks], c'.exp, rfl⟩
+  · subst hr
+    simp only [scanBlocks, hc, if_true]
+    exact ⟨{ c' with exp := c'.exp ++ ['-'] }, scan_mem_done _ _ _ _ _ (by simp), c'.exp, rfl⟩
 
 /-- the two outcomes of `parse_units` on non-empty preprocessed text -/
 theorem parseUnitsCore_cases (s : List Char) (hne : s ≠ []) :
@@ -1216,11 +1288,11 @@ theorem blockExp_factor (f : Factor) : blockExp f.toBlock = some f.signedExp := 
     have hne := showIntChars_ne_nil e
     cases div <;> simp [blockExp, Factor.toBlock, Factor.signedExp, hne, pyInt_showInt, hn]
 
-theorem factor_exp_ok (f : Factor) : (!f.toBlock.exp.isEmpty && (pyInt f.toBlock.exp).isNone) = false := by
+theorem factor_exp_ok (f : Factor) : (!f.toBlock.exp.isEmpty && badExpText f.toBlock.exp) = false := by
   obtain ⟨div, sym, exp⟩ := f
   cases exp with
   | none => simp [Factor.toBlock]
-  | some e => simp [Factor.toBlock, pyInt_showInt]
+  | some e => simp [Factor.toBlock, badExpText_showInt]
 
 /-- the second loop on the signed-exponent view of the factors -/
 def addFactors (a : Acc) : List (String × Int) → Res Acc
@@ -1286,7 +1358,7 @@ theorem parse_renderFactors (f : Factor) (fs : List Factor) (hdiv : f.div = fals
   rw [parseUnitsCore_render f.toBlock (fs.map Factor.toBlock) (factor_wf f (hs f (by simp)))
     (by intro x hx; simp only [List.mem_map] at hx; obtain ⟨g, hg, rfl⟩ := hx; exact factor_wf g (hs g (by simp [hg])))
     hsep hne hnb]
-  have hchk : (f.toBlock :: fs.map Factor.toBlock).any (fun b => !b.exp.isEmpty && (pyInt b.exp).isNone) = false := by
+  have hchk : (f.toBlock :: fs.map Factor.toBlock).any (fun b => !b.exp.isEmpty && badExpText b.exp) = false := by
     rw [List.any_eq_false]
     intro x hx
     have : ∃ g, x = Factor.toBlock g := by
